@@ -4,6 +4,7 @@ import (
 	"fmt"
 	"go/token"
 	"go/types"
+	"os"
 	"runtime/debug"
 	"slices"
 	"strings"
@@ -81,10 +82,11 @@ type Interp struct {
 	killed   bool
 	preempts int
 
-	fnStats   map[*ssa.Function]int
-	localWork [][]decision
-	holding   bool
-	wg        sync.WaitGroup
+	fnStats    map[*ssa.Function]int
+	traceStack string
+	localWork  [][]decision
+	holding    bool
+	wg         sync.WaitGroup
 }
 
 func (in *Interp) get(fr *frame, key ssa.Value) Value {
@@ -787,6 +789,13 @@ func (in *Interp) assume(t *smt.Term) {
 	in.pc = append(in.pc, t)
 	if in.live {
 		in.sol.Assert(t)
+		if debugAssume {
+			if in.sol.Check() == smt.Unsat {
+				_, e := in.sol.P.Emit(t)
+				fmt.Fprintf(os.Stderr, "ASSUME-UNSAT after %s\n  stack: %s\n", e[:min(len(e), 300)], in.traceStack)
+				panic(pathAbort{"assume made the path condition unsatisfiable"})
+			}
+		}
 	}
 	if t == in.tb.False {
 		panic(pathAbort{"assumption is false"})
@@ -890,7 +899,9 @@ func (in *Interp) decide(alts []*smt.Term, kind string) int {
 	return d.Chosen
 }
 
-// decideN is an unconstrained n-way fork (choices, schedules).
+// decideN is an unconstrained n-way fork (choices, schedules). It opens its own solver frame like a
+// constrained fork does: the assertions that follow belong to this alternative only and must be popped
+// when a sibling alternative is explored.
 func (in *Interp) decideN(n int, kind string) int {
 	if n == 1 {
 		return 0
@@ -898,6 +909,9 @@ func (in *Interp) decideN(n int, kind string) int {
 	pos := len(in.log)
 	if k, ok := in.takeReplay(n); ok {
 		in.goLive()
+		if in.live {
+			in.sol.Push()
+		}
 		in.log = append(in.log, in.prefix[pos])
 		return k
 	}
@@ -905,10 +919,11 @@ func (in *Interp) decideN(n int, kind string) int {
 	for alt := n - 1; alt >= 1; alt-- {
 		p := make([]decision, pos+1)
 		copy(p, in.log)
-		p[pos] = decision{N: n, Chosen: alt, Kind: kind}
+		p[pos] = decision{N: n, Chosen: alt, Kind: kind, Pushes: true}
 		in.ex.pushWork(in, p)
 	}
-	in.log = append(in.log, decision{N: n, Chosen: 0, Kind: kind})
+	in.sol.Push()
+	in.log = append(in.log, decision{N: n, Chosen: 0, Kind: kind, Pushes: true})
 	in.res.Decisions++
 	return 0
 }
@@ -1221,3 +1236,5 @@ var allowedFuncs = map[string]bool{
 var noInitPkgs = map[string]bool{
 	"github.com/godaddy/asherah/server/go/api": true,
 }
+
+var debugAssume = os.Getenv("GOSX_CHECK_ASSUME") != ""
